@@ -6,12 +6,22 @@ package k8salloc
 
 // The ports of a Service as the allocator sees them. A LoadBalancer Service has at least one port and pairwise
 // distinct (protocol, port) pairs (API-server validation): assumed, this is the PortsOK precondition of the allocator.
+// SvcPortsOK is that assumption on the Service; Ports is verified to copy protocol and number of every port, in order.
+//@ pred SvcPortsOK(svc *v1.Service) := len(svc.Spec.Ports) >= 1 && (forall m int, n int :: 0 <= m && m < n && n < len(svc.Spec.Ports) ==>
+//@     svc.Spec.Ports[m].Protocol != svc.Spec.Ports[n].Protocol || svc.Spec.Ports[m].Port != svc.Spec.Ports[n].Port)
 //@ func Ports
-//@   trusted
-//@   ensures allocator.PortsOK(result)
+//@   requires svc != nil
+//@   ensures [copied] len(result) == len(svc.Spec.Ports) && (forall k int :: 0 <= k && k < len(result) ==> result[k].Proto == svc.Spec.Ports[k].Protocol && result[k].Port == svc.Spec.Ports[k].Port)
+//@   ensures [ok] SvcPortsOK(svc) ==> allocator.PortsOK(result)
 //@   ensures result == nil || fresh(result)
 //@   modifies fresh []allocator.Port
+//@   loop 1 binds port
+//@   loop 1 invariant (ret == nil || fresh(ret)) && len(ret) == iter
+//@   loop 1 invariant forall k int :: 0 <= k && k < iter ==> ret[k].Proto == svc.Spec.Ports[k].Protocol && ret[k].Port == svc.Spec.Ports[k].Port
+// BackendKey: the printed selector for externalTrafficPolicy Local (Services must then have the same backends to share
+// an address), empty otherwise
 //@ func BackendKey
-//@   trusted
 //@   pure
+//@   requires svc != nil
+//@   ensures result == ite(svc.Spec.ExternalTrafficPolicy == v1.ServiceExternalTrafficPolicyTypeLocal, labels.Set(svc.Spec.Selector).String(), "")
 //@   modifies nothing
